@@ -1014,13 +1014,22 @@ static Token *include_file(Token *tok, char *path, Token *filename_tok, bool sea
 static void read_line_marker(Token **rest, Token *tok) {
   Token *start = tok;
   tok = preprocess2(copy_line(rest, tok));
-  convert_pp_tokens(tok);
 
-  // The line number is a digit sequence no greater than 2147483647.
-  if (tok->kind != TK_NUM || tok->ty->kind != TY_INT ||
-      tok->val < 0 || tok->val > 2147483647)
+  // The line number is a digit sequence, read as a decimal number
+  // whatever its leading digits, and no greater than 2147483647
+  // (C11 6.10.4p3).
+  if (tok->kind != TK_PP_NUM || tok->len > 10)
     error_tok(tok, "invalid line marker");
-  start->file->line_delta = tok->val - start->line_no;
+  long val = 0;
+  for (int i = 0; i < tok->len; i++) {
+    if (!isdigit(tok->loc[i]))
+      error_tok(tok, "invalid line marker");
+    val = val * 10 + (tok->loc[i] - '0');
+  }
+  if (val > 2147483647)
+    error_tok(tok, "invalid line marker");
+  start->file->line_delta = val - start->line_no;
+  convert_pp_tokens(tok);
 
   tok = tok->next;
   if (tok->kind == TK_EOF)
